@@ -10,9 +10,12 @@ EXTENDS AyMerge, AyUniverse, SequencesExt
 \* references: !xref nodes and !eval nodes whose code is one bare name (they carry ref = <<that top-level key>>):
 \* both evaluate to the very object their target evaluates to
 IsRefNode(n) == n.k = "xref" \/ (n.k = "eval" /\ n.ref # <<>>)
+\* an f-string whose body is one replacement field `{name}` (ref = <<that top-level key>>): the TEXT of the entry
+IsFStrName(n) == n.k = "fstr" /\ n.ref # <<>>
 XRefPaths(t) == {p \in PathsOf(t) : IsRefNode(At(t, p))}
 DynKinds == {"call", "eval", "fstr", "import"}
-DynPaths(t)  == {p \in PathsOf(t) : At(t, p).k \in DynKinds /\ ~IsRefNode(At(t, p))}
+DynPaths(t)  == {p \in PathsOf(t) : At(t, p).k \in DynKinds /\ ~IsRefNode(At(t, p)) /\ ~IsFStrName(At(t, p))}
+TextOfAtom(a) == CASE a[1] = "n" -> "None" [] a[1] = "b" -> (IF a[2] = "T" THEN "True" ELSE "False") [] OTHER -> a[2]
 
 \* static resolution of the reference at p: <<"ok", target>> | <<"missing">> | <<"cycle">>
 RECURSIVE ResolveFrom(_, _, _)
@@ -39,6 +42,7 @@ DependsOnItself(t, p) == p \in ReachFrom(t, DepOf(t, p), DepOf(t, p))
 \* a config whose references cannot all be resolved: dangling, self, cyclic, or (through containers) circular
 BadRefs(t) ==
     \/ \E p \in XRefPaths(t) : Resolve(t, p)[1] # "ok"
+    \/ \E p \in PathsOf(t) : IsFStrName(At(t, p)) /\ ~HasPath(t, At(t, p).ref)         \* (NameError in the f-string)
     \/ \E p \in PathsOf(t) : DependsOnItself(t, p)
 
 \* ---- C09 -------------------------------------------------------------------
@@ -73,6 +77,8 @@ RECURSIVE Denote(_, _)
 Denote(t, p) ==
     LET n == At(t, p)
     IN IF IsRefNode(n) THEN Denote(t, Resolve(t, p)[2])
+       ELSE IF IsFStrName(n) /\ HasPath(t, n.ref)
+       THEN LET d == Denote(t, n.ref) IN Plain("scalar", Atom("s", IF d.k = "scalar" THEN TextOfAtom(d.v) ELSE "?"), <<>>)
        ELSE IF n.k = "call" /\ n.fn = "vmod.recnone" THEN Plain("scalar", Atom("n", ""), <<>>)
        ELSE IF n.k = "call" /\ n.fn = "vmod.reclist" THEN Plain("list", NoVal, <<>>)
        ELSE IF n.k \in DynKinds THEN Plain("obj", NoVal, <<>>)
